@@ -32,9 +32,13 @@ DKw == [maxProperties |-> 2]
 DProps == << Prop("b", "b", FALSE, Mk("Integer", [default |-> JInt(1)])),
              Prop("a", "a", FALSE, StringE) >>
 
-Targets == {"E", "C", "D"}
+(* class F(C, minProperties=0): pass  -- a subclass that declares no property of its own *)
+FKw == [minProperties |-> 0]
+Targets == {"E", "C", "D", "F"}
+Children == {"D", "F"}
 Init == /\ heap = [x \in Targets |-> IF x = "E" THEN E0 ELSE IF x = "C" THEN C0
-                                     ELSE Merge(C0, "D", DKw, DProps)]
+                                     ELSE IF x = "D" THEN Merge(C0, "D", DKw, DProps)
+                                     ELSE Merge(C0, "F", FKw, <<>>)]
         /\ hist = <<>>
         /\ last = [kind |-> "none", out |-> NP]
 
@@ -85,11 +89,11 @@ Spec == Init /\ [][Next]_vars
 
 (* design-level claims on the model *)
 PureValidate == [][(Len(hist') > Len(hist) /\ hist'[Len(hist')].op = "validate") => heap' = heap]_vars
-ParentIsolated == [][(Len(hist') > Len(hist) /\ hist'[Len(hist')].x = "D") => heap'["C"] = heap["C"]]_vars
+ParentIsolated == [][(Len(hist') > Len(hist) /\ hist'[Len(hist')].x \in Children) => heap'["C"] = heap["C"]]_vars
 
 Export == PrintT(ToJson([hist |-> hist, heap |-> heap, last |-> last,
                          init |-> IF Len(hist) = 0
-                                  THEN [values |-> HeapValues, dkw |-> DKw, dprops |-> DProps]
-                                  ELSE [values |-> <<>>, dkw |-> DKw, dprops |-> <<>>]]))
+                                  THEN [values |-> HeapValues, dkw |-> DKw, dprops |-> DProps, fkw |-> FKw]
+                                  ELSE [values |-> <<>>, dkw |-> DKw, dprops |-> <<>>, fkw |-> FKw]]))
 Inv == Export
 =============================================================================
